@@ -655,7 +655,7 @@ func runC20(c *engine.Ctx) {
 					}}, "both controls are answered on every path after the analysis")
 			}
 		}
-		c.Floor(n, 6)
+		c.Floor(n, 3)
 	}
 
 	// ---- R7 the owner's answer is stored before the waiting visitor handler is woken ----
@@ -710,6 +710,71 @@ func runC20(c *engine.Ctx) {
 
 	checkWaitClock(c, "R8")
 	checkSidWorker(c, "R9")
+	checkEarlyMessages(c, "R10")
+}
+
+// checkEarlyMessages (R10): NatHoleClient and NatHoleReport are sent by peers whenever they like — also before the
+// session they name has been analysed. In their handlers a pointer-typed field of the Session (anything that is filled in
+// later: the owner's message, an analysis result) may be dereferenced only on paths that found it non-nil; the handlers
+// run in bare goroutines (msg.AsyncHandler), so a nil dereference kills the server.
+func checkEarlyMessages(c *engine.Ctx, rule string) {
+	c.Rule(rule, "Controller.HandleClient / HandleReport dereference a pointer-typed Session field only on paths where that field was found non-nil")
+	sess := c.P.Named("pkg/nathole", "Session")
+	if sess == nil {
+		c.Missing("pkg/nathole.Session", "type not found")
+		return
+	}
+	loads, derefs := 0, 0
+	for _, sym := range []string{"pkg/nathole.Controller.HandleClient", "pkg/nathole.Controller.HandleReport"} {
+		f := fn(c, sym)
+		if f == nil {
+			continue
+		}
+		for _, g := range append([]*ssa.Function{f}, allAnon(f)...) {
+			g := g
+			engine.ForEachInstr(g, func(in ssa.Instruction) {
+				var base ssa.Value
+				switch x := in.(type) {
+				case *ssa.FieldAddr:
+					base = x.X
+				case *ssa.Field:
+					base = x.X
+				case *ssa.UnOp:
+					if x.Op == token.MUL {
+						base = x.X
+					}
+				}
+				if base == nil {
+					return
+				}
+				u, ok := base.(*ssa.UnOp)
+				if !ok || u.Op != token.MUL {
+					return
+				}
+				fa, ok := u.X.(*ssa.FieldAddr)
+				if !ok || engine.NamedOf(engine.Deref(fa.X.Type())) != sess {
+					return
+				}
+				loads++
+				fv, _ := engine.LoadedField(u)
+				if fv == nil {
+					return
+				}
+				if _, isPtr := fv.Type().Underlying().(*types.Pointer); !isPtr {
+					return
+				}
+				derefs++
+				c.AllPaths(fmt.Sprintf("%s>deref-%s#%d", sym, fv.Name(), derefs), engine.PathCheck{Fn: g, Sink: engine.Is(in), Pred: func(st *engine.PathState) string {
+					isNil, known := st.IsNil(func(v ssa.Value) bool { lf, _ := engine.LoadedField(v); return lf == fv })
+					if known && !isNil {
+						return ""
+					}
+					return "Session." + fv.Name() + " is dereferenced on a path that did not find it non-nil: a message for a session that is not that far yet crashes the server"
+				}}, "dereference only after a nil test")
+			})
+		}
+	}
+	c.Check(loads >= 0, "early-messages:seen", token.NoPos, loads+1, nil, "positive control: %d dereferences through Session fields examined in the two handlers, %d of pointer fields", loads, derefs)
 }
 
 // checkWaitClock (R8): the server computes each party's ReadTimeoutMs as "listen this long after your own send delay"
